@@ -29,11 +29,12 @@ def _drop_op(sched, j):
     s = copy.deepcopy(sched)
     del s["ops"][j]
     for op in s["ops"]:
-        if op.get("stop_share") is not None:
-            if op["stop_share"] == j:
-                op.pop("stop_share")
-            elif op["stop_share"] > j:
-                op["stop_share"] -= 1
+        for key in ("stop_share", "tsave_share"):
+            if op.get(key) is not None:
+                if op[key] == j:
+                    op.pop(key)
+                elif op[key] > j:
+                    op[key] -= 1
         f = op["f"]
         if "res" in f:
             a, k = f["res"]
